@@ -207,7 +207,7 @@ func execRank(in In, em *Emitter) {
 	o := J{}
 	n := len(ws) * 64
 	abn := guard(func() {
-		idx64 := bitmap.IndexRank64(ws)
+		idx64 := bitmap.IndexRank64(ws, emptyBoolOpts()...)
 		idx64f := bitmap.IndexRank64(ws, false)
 		idx64t := bitmap.IndexRank64(ws, true)
 		idx128 := bitmap.IndexRank128(ws)
@@ -898,7 +898,7 @@ func execOfBig(in In, em *Emitter) {
 		if hasn {
 			ws = bitmap.Of(pos, n)
 		} else {
-			ws = bitmap.Of(pos)
+			ws = bitmap.Of(pos, emptyOpts()...)
 		}
 		o["nw"] = len(ws)
 		o["ones"] = onesOfSparse(ws)
@@ -961,7 +961,7 @@ func execOf(in In, em *Emitter) {
 		if hasn {
 			ws = bitmap.Of(pos, n)
 		} else {
-			ws = bitmap.Of(pos)
+			ws = bitmap.Of(pos, emptyOpts()...)
 		}
 		o["bm"] = bmJ(ws)
 		o["arr"] = nums32(bitmap.ToArray(ws))
